@@ -38,6 +38,7 @@ class D(Driver):
         ("picosvg.svg_types", "SVGPath.from_commands"),
     )
     deciding_monitors = ("parse_svg_path",)
+    feature_floors = {"ok": 5000, "roundtrip_ok": 600}
     nt_floor = {"quick": 500, "thorough": 2000}
     time_budget = {"quick": 120, "thorough": 900}
 
